@@ -44,6 +44,8 @@ CRITS = ["relative", "absolute", "variance"]
 SPELL = ["relative", "absolute", "variance", " Relative ", "ABSOLUTE\n", "\tVariance", "rel", "", "variances", "absolute x",
          "  VARIANCE  ", "Relative\t", "abs olute", "relative,"]
 TOLS = [0.0, 1e-3, 0.05, 0.3, 2.0, float("inf")]
+# the deprecated class's sixth parameter (documented: ignored): omitted / positional / keyword, several values
+VNAMES = [None, ["kw", "std_error"], ["pos", "anything"], ["kw", None], ["pos", "variance"], ["pos", "std_error"], ["kw", "mean"]]
 
 
 def ref_deviation(crit, prev, cur, pvar):
@@ -94,21 +96,41 @@ def session(ctx, spec):
     vconv = float if spec.get("vtype", "np.float64") in ("float", "int") else np.float64
     if spec["ev"] == "metric":
         fn = lambda state, **k: conv(vals[clock.t % len(vals)])
-        ev = MetricEvaluator(pe, {"q": fn})
+        ev = MetricEvaluator(pe, {"q": fn}, verbose=bool(spec.get("verbose", False)))
         probe = C["Probe"](lambda st: (fn(st), np.float64(0.0)))
         read = lambda: [float(x) for x in ev["q"]]
     else:
         obs = C["StubObs"]("q", clock, [[vals[i % len(vals)], vars_[i % len(vars_)]] for i in range(len(vals) * len(vars_))],
                            conv=conv, vconv=vconv)
-        ev = ObservableEvaluator(pe, [obs], **kw)
+        ev = ObservableEvaluator(pe, [obs], verbose=bool(spec.get("verbose", False)), **kw)
         wb = C["obs_wouldbe"]([obs], kw)
         probe = C["Probe"](lambda st: (lambda d: (d["q"]["mean"], d["q"]["variance"]))(wb(st)))
         read = lambda: [float(x) for x in ev["q"].means]
     pgiven = PTYPES[spec.get("ptype", "int")](p)
+    esform = spec.get("esform", 0)
     if spec.get("deprecated"):
-        ok, es = ctx.call("VarianceBasedEarlyStopping construction", case, lambda: VarianceBasedEarlyStopping(ps, tol, pgiven, ev, "q"))
+        vn = spec.get("vname")          # None: argument omitted; else [mode, value] (documented: ignored)
+        if vn is None:
+            mk = lambda: VarianceBasedEarlyStopping(ps, tol, pgiven, ev, "q")
+        elif vn[0] == "pos":
+            mk = lambda: VarianceBasedEarlyStopping(ps, tol, pgiven, ev, "q", vn[1])
+        else:
+            mk = lambda: VarianceBasedEarlyStopping(period=ps, tolerance=tol, patience=pgiven, evaluator_callback=ev,
+                                                    quantity_name="q", variance_name=vn[1])
+        ctx.count("variance_name:%s" % ("omitted" if vn is None else "%s=%r" % (vn[0], vn[1])))
+        ok, es = ctx.call("VarianceBasedEarlyStopping construction", case, mk)
     elif spec["crit"] in CRITS:
-        ok, es = ctx.call("EarlyStopping construction", case, lambda: EarlyStopping(ps, tol, pgiven, ev, "q", criterion=spec["crit"]))
+        if esform == 1:
+            mk = lambda: EarlyStopping(ps, tol, pgiven, ev, "q", spec["crit"])
+        elif esform == 2:
+            mk = lambda: EarlyStopping(period=ps, tolerance=tol, patience=pgiven, evaluator_callback=ev, quantity_name="q",
+                                       criterion=spec["crit"])
+        elif esform == 3 and spec["crit"] == "relative":
+            mk = lambda: EarlyStopping(ps, tol, pgiven, ev, "q")          # documented default criterion
+        else:
+            mk = lambda: EarlyStopping(ps, tol, pgiven, ev, "q", criterion=spec["crit"])
+        ctx.count("stopper_call_form:%d" % esform)
+        ok, es = ctx.call("EarlyStopping construction", case, mk)
     else:       # a spelling with other case / white space: whether it is accepted is not part of the property
         r = base.res(lambda: EarlyStopping(ps, tol, pgiven, ev, "q", criterion=spec["crit"]))
         base.info(ctx, "criterion written with other case / white space is accepted", r[0] == 0)
@@ -121,11 +143,20 @@ def session(ctx, spec):
     want_last = None
     mfits, impl = [], []
     evaluated = borderline = False
-    for (start, end) in spec["fits"]:
+    import io, contextlib
+    for fi, (start, end) in enumerate(spec["fits"]):
         n0 = len(probe.events)
         s.stop_training = False
-        ok, _ = ctx.call("fit with EarlyStopping", case, lambda: s.fit(base.DATA, epochs=end, pos_batch_size=3, neg_batch_size=3, k=1,
-                                                                       lr=0.1, starting_epoch=start, callbacks=cbs, **extra))
+        fkw = dict(extra)
+        if not (start == 1 and spec.get("omit_default_start")):      # starting_epoch=1 is the default: sometimes not passed at all
+            fkw["starting_epoch"] = start
+        with contextlib.redirect_stdout(io.StringIO()):
+            ok, _ = ctx.call("fit with EarlyStopping", case, lambda: s.fit(base.DATA, epochs=end, pos_batch_size=3, neg_batch_size=3, k=1,
+                                                                           lr=0.1, callbacks=cbs, **fkw))
+        ctx.count("run_range:%s" % ("first:start=%d" % min(start, 2) if fi == 0 else
+                                    ("restart-at-0" if start == 0 else "restart-at-1" if start == 1 else
+                                     "continue" if start == spec["fits"][fi - 1][1] + 1 else
+                                     "overlap" if start <= spec["fits"][fi - 1][1] else "gap")))
         if not ok:
             s.stop_training = False
             return
@@ -177,7 +208,8 @@ def session(ctx, spec):
         base.info(ctx, "session with a guard-band decision vs model", base.canon([0, CRITS.index(crit), impl]) == base.canon(mod))
     else:
         ctx.agree_exact("EarlyStopping run vs model", base.canon([0, CRITS.index(crit), impl]), base.canon(mod), case)
-    ctx.case({k: spec.get(k) for k in ("ev", "order", "pe", "ps", "patience", "ptype", "vtype", "tol", "crit", "fits", "tseed", "pattern")},
+    ctx.case({k: spec.get(k) for k in ("ev", "order", "pe", "ps", "patience", "ptype", "vtype", "tol", "crit", "fits", "tseed", "pattern",
+                                       "esform", "vname", "deprecated", "verbose")},
              nontrivial=evaluated)
     ctx.count("vtype:" + spec.get("vtype", "np.float64")); ctx.count("ptype:" + spec.get("ptype", "int"))
     zero_prev = any(h[0] == 0.0 for h in hist) if crit == "relative" else (any(h[1] == 0.0 for h in hist) if crit == "variance" else False)
@@ -215,19 +247,25 @@ def constructor_table(ctx):
                     base.info(ctx, "constructor exception class", r[1] == want_cls)
             ctx.case(case, nontrivial=(kname != "other"))
             ctx.count("constructor:" + kname)
-        case = {"session": "constructor", "kind": kname, "deprecated": True}
-        r = base.res(lambda: VarianceBasedEarlyStopping(1, 0.1, 2, mk(), "q"), lambda es: 0)
-        raises = r[0] == 1
-        mod_raises = m.call("c18_vbes_construct", ki)[0] == 1
-        if kname == "observable":
-            ctx.require("VarianceBasedEarlyStopping constructs for an ObservableEvaluator", not raises, case, {"got": r})
-            ctx.agree_exact("deprecated constructor vs model", raises, mod_raises, case)
-        elif kname == "metric":
-            ctx.require("VarianceBasedEarlyStopping (= variance criterion) is refused for a MetricEvaluator", raises, case, {"got": r})
-            ctx.agree_exact("deprecated constructor vs model", raises, mod_raises, case)
-        else:
-            base.info(ctx, "constructor raises-or-constructs outside the statement (other)", raises == mod_raises)
-        ctx.case(case, nontrivial=True)
+        for vn in VNAMES:
+            case = {"session": "constructor", "kind": kname, "deprecated": True, "variance_name": vn}
+            if vn is None:
+                r = base.res(lambda: VarianceBasedEarlyStopping(1, 0.1, 2, mk(), "q"), lambda es: 0)
+            elif vn[0] == "pos":
+                r = base.res(lambda: VarianceBasedEarlyStopping(1, 0.1, 2, mk(), "q", vn[1]), lambda es: 0)
+            else:
+                r = base.res(lambda: VarianceBasedEarlyStopping(1, 0.1, 2, mk(), "q", variance_name=vn[1]), lambda es: 0)
+            raises = r[0] == 1
+            mod_raises = m.call("c18_vbes_construct", ki)[0] == 1
+            if kname == "observable":
+                ctx.require("VarianceBasedEarlyStopping constructs for an ObservableEvaluator (variance_name given or not)", not raises, case, {"got": r})
+                ctx.agree_exact("deprecated constructor vs model", raises, mod_raises, case)
+            elif kname == "metric":
+                ctx.require("VarianceBasedEarlyStopping (= variance criterion) is refused for a MetricEvaluator", raises, case, {"got": r})
+                ctx.agree_exact("deprecated constructor vs model", raises, mod_raises, case)
+            else:
+                base.info(ctx, "constructor raises-or-constructs outside the statement (other)", raises == mod_raises)
+            ctx.case(case, nontrivial=True)
 
 
 def pattern(rng, name, n=30):
@@ -270,10 +308,16 @@ def specs(ctx):
         if rng.random() < 0.4:
             ps = pe
         p = 1 + (i % 5)
-        end1 = int(rng.integers(4, 25))
-        fits = [(1, end1)]
-        if rng.random() < 0.35:
-            fits.append((end1 + 1, end1 + int(rng.integers(1, 13))))
+        start1 = [1, 1, 1, 1, 1, 1, 0, 0, 2, 3][int(rng.integers(10))]
+        end1 = start1 + int(rng.integers(3, 24))
+        fits = [(start1, end1)]
+        nxt = rng.random()
+        for _ in range(2 if nxt < 0.15 else (1 if nxt < 0.55 else 0)):     # later runs on the same evaluator / stopper objects
+            prev_end = fits[-1][1]
+            kind2 = ["continue", "restart1", "restart1", "restart0", "overlap", "gap"][int(rng.integers(6))]
+            st2 = {"continue": prev_end + 1, "restart1": 1, "restart0": 0, "overlap": int(rng.integers(0, prev_end + 1)),
+                   "gap": prev_end + int(rng.integers(2, 5))}[kind2]
+            fits.append((st2, st2 + int(rng.integers(0, 13))))
         variances = [float(v) for v in np.round(rng.uniform(0.05, 3, size=7), 2)]
         if rng.random() < 0.2:
             variances[int(rng.integers(7))] = 0.0
@@ -288,13 +332,24 @@ def specs(ctx):
         out.append({"ev": evk, "order": "ev_first" if rng.random() < 0.6 else "st_first", "pe": pe, "ps": ps, "patience": p,
                     "ptype": ["int", "int", "np.int64", "float"][int(rng.integers(4))], "vtype": vtype,
                     "crit": spell(rng, crit) if rng.random() < 0.15 else crit, "tol": TOLS[int(rng.integers(len(TOLS)))], "values": values,
-                    "variances": variances, "fits": fits, "pattern": pat,
+                    "variances": variances, "fits": fits, "pattern": pat, "esform": int(rng.integers(4)),
+                    "omit_default_start": bool(rng.random() < 0.5), "verbose": bool(rng.random() < 0.15),
                     "state": ["positive", "positive", "complex", "dm"][int(rng.integers(4))] if ctx.thorough or i % 7 == 0 else "positive",
                     "tseed": int(rng.integers(1 << 30))})
     # the input of the repaired defect: patience 1, values 5,3,1,1,...; absolute; tol 0.05
     fixed = [{"ev": "metric", "order": "ev_first", "pe": 1, "ps": 1, "patience": 1, "crit": "absolute", "tol": 0.05, "vtype": "float",
               "values": [5.0, 3.0, 1.0, 1.0, 1.0, 1.0], "variances": [1.0], "fits": [(1, 6)], "pattern": "defect-input-lookback",
               "state": "positive", "tseed": 5}]
+    # runs on the same objects whose epoch numbers do not increase: a second fit with the default starting_epoch must be
+    # checked (and here: stopped at its epoch 2); a run starting at epoch 0 is checked at epoch 0 (here: stopped there)
+    for order in ("ev_first", "st_first"):
+        fixed.append({"ev": "metric", "order": order, "pe": 1, "ps": 1, "patience": 1, "crit": "absolute", "tol": 0.05, "vtype": "float",
+                      "values": [5.0, 3.0, 2.0, 1.5, 1.0, 1.0, 1.0, 1.0, 1.0, 1.0, 1.0, 1.0, 1.0], "variances": [1.0], "fits": [(1, 4), (1, 8)],
+                      "omit_default_start": order == "ev_first", "pattern": "restart-at-1", "state": "positive", "tseed": 21})
+        fixed.append({"ev": "observable", "order": order, "pe": 1, "ps": 1, "patience": 2, "crit": "variance", "tol": 0.3, "vtype": "np.float64",
+                      "values": [1.5], "variances": [1.0], "fits": [(1, 2), (0, 5)], "pattern": "restart-at-0", "state": "positive", "tseed": 22})
+        fixed.append({"ev": "metric", "order": order, "pe": 2, "ps": 2, "patience": 1, "crit": "relative", "tol": 0.3, "vtype": "int", "esform": 3,
+                      "values": [4.0], "variances": [1.0], "fits": [(0, 6), (0, 3), (2, 4)], "pattern": "restart-at-0", "state": "positive", "tseed": 23})
     # the inputs of the repaired division defect: an earlier value of exactly zero under `relative`, in every numeric type
     for vt in ("float", "int", "np.float64", "np.int64"):
         for order in ("ev_first", "st_first"):
@@ -320,13 +375,20 @@ def run(ctx):
     sp = specs(ctx)
     # the deprecated class behaves as EarlyStopping(criterion="variance"): identical sessions, one with each class (run first)
     k = 0
-    for spec in sp:
-        if spec["ev"] == "observable" and spec["pattern"] != "defect-input-zero" and k < (40 if ctx.thorough else 8):
+    # a pair on which the variance (4.0 -> sigma 2) and the standard error (1.0) of the earlier evaluation decide differently
+    pair_first = [{"ev": "observable", "order": order, "pe": 1, "ps": 1, "patience": 1, "crit": "variance", "tol": 1.0, "vtype": "float",
+                   "values": [6.0, 4.5, 3.0, 1.5, 0.0, -1.5, -3.0, -4.5], "variances": [4.0], "fits": [(1, 6)], "pattern": "variance-vs-std_error",
+                   "state": "positive", "tseed": 24} for order in ("ev_first", "st_first")]
+    for spec in pair_first + sp:
+        if spec["ev"] == "observable" and spec["pattern"] != "defect-input-zero" and k < (60 if ctx.thorough else 14):
+            vn = VNAMES[(k + 1) % len(VNAMES)]         # k = 0: keyword "std_error", k = 1: positional "anything", ...
             k += 1
             a = session(ctx, json.loads(json.dumps(dict(spec, crit="variance"))))
-            b = session(ctx, json.loads(json.dumps(dict(spec, crit="variance", deprecated=True))))
-            ctx.require("VarianceBasedEarlyStopping run == EarlyStopping(criterion='variance') run", a == b and a is not None,
-                        {"session": "deprecated-vs-variance", "spec": dict(spec, crit="variance", deprecated=True)}, {"variance": a, "deprecated": b})
+            b = session(ctx, json.loads(json.dumps(dict(spec, crit="variance", deprecated=True, vname=vn))))
+            ctx.require("VarianceBasedEarlyStopping run == EarlyStopping(criterion='variance') run (variance_name is ignored)",
+                        a == b and a is not None,
+                        {"session": "deprecated-vs-variance", "spec": dict(spec, crit="variance", deprecated=True, vname=vn)},
+                        {"variance": a, "deprecated": b})
     ctx.count("deprecated_pairs_executed", k)
     done = skipped = 0
     for spec in sp:
